@@ -10,14 +10,59 @@ import Atto.Driver.HappyOp
 import Atto.Driver.WdOp
 import Atto.Driver.TlsOp
 import Atto.Driver.StageOp
+import Atto.Model.BodyBuf
 namespace Atto.Driver
 open Atto
+
+/-- one call of the `BufRead` view: `r<n>` = `read` into `n` bytes, `f` = `fill_buf`, `c<k>` = `consume(k)`,
+    `m<k>` = `consume(min(k, what is buffered))` — a consumer that keeps the `BufRead` contract -/
+inductive DOp where
+  | raw (op : BOp)
+  | upTo (k : Nat)
+
+def dopOfString (s : String) : Option DOp :=
+  match s.toList with
+  | ['f'] => some (.raw .fill)
+  | 'r' :: rest => (String.ofList rest).toNat?.map (fun n => .raw (.read n))
+  | 'c' :: rest => (String.ofList rest).toNat?.map (fun k => .raw (.consume k))
+  | 'm' :: rest => (String.ofList rest).toNat?.map .upTo
+  | _ => none
+
+/-- run the calls, resolving `m<k>` against `out`, the part of the slice `fill_buf` last showed that the
+    consumer has not taken yet (tracked exactly as the harness tracks it; `out ≤ window.length` always, so
+    the resolved call keeps the `BufRead` contract) -/
+def bufRunD (maxBuf : Nat) : List DOp → Body → Nat → List BEv
+  | [], _, _ => []
+  | d :: ds, b, out =>
+    let op := match d with
+      | .raw op => op
+      | .upTo k => .consume (min k out)
+    match b.step maxBuf op with
+    | (ev, b') =>
+      let out' := match op, ev with
+        | .fill, .peek bs => bs.length
+        | .fill, _ => 0
+        | .read _, .got bs => out - bs.length
+        | .consume k, _ => out - k
+        | _, _ => out
+      ev :: bufRunD maxBuf ds b' out'
+
+/-- what the harness can observe of a `BufRead` call: the bytes of a `read`, the slice of a `fill_buf`;
+    `consume` returns nothing (what it took shows in the calls that follow) -/
+def bevToString : BEv → String
+  | .got bs => "o" ++ hexOfBytes bs
+  | .peek bs => "p" ++ hexOfBytes bs
+  | .took _ => "k"
+  | .err e => "e:" ++ errName e
+  | .blocked => "b"
+  | .panic => "P"
 
 /-- `resp <METHOD> <maxHeaders> <cap> <maxBuf> <segs> <reads>`
     reads: comma-separated sizes, or `B<sz>` (`bytes()`: drain with reads of `sz`), `W<sz>` (`write_to`),
     `S<sz>` (`split()` + `read_to_end`), `J<sz>` (`json()` / `json_utf8()` on a body that is a canonical JSON
     document: Ok stands for the whole body) — the same drain —, `Q<sz>` (`error_for_status()?.bytes()`:
-    `StatusCode::is_success` = 200 ≤ status < 300, else `ErrorKind::StatusCode`), `T<sz>` (`text_utf8()`). -/
+    `StatusCode::is_success` = 200 ≤ status < 300, else `ErrorKind::StatusCode`), `T<sz>` (`text_utf8()`),
+    `V<op>,<op>,…` (the `BufRead` view: `r<n>` read, `f` fill_buf, `c<k>` consume, `m<k>` consume at most what is buffered). -/
 def opResp (args : List String) : String :=
   match args with
   | [m, mh, cap, mb, segs, rds] =>
@@ -42,6 +87,10 @@ def opResp (args : List String) : String :=
                  | (.ok bs, _) => [evToString (Ev.ok (String.ofList (decodeUtf8 bs)).toUTF8.toList)]
                  | (res, _) => [evToString (Ev.ofRR res)]
               | none => [])
+           | 'V' :: rest =>
+             -- the `BufRead` view of the body reader, mixed with `read` (hook `verif_fill_buf` / `verif_consume`)
+             let ops := (splitComma (String.ofList rest)).filterMap dopOfString
+             (bufRunD maxBuf ops resp.body 0).map bevToString
            | 'B' :: rest => drainEv rest
            | 'W' :: rest => drainEv rest
            | 'S' :: rest => drainEv rest
